@@ -493,11 +493,22 @@ def _adoption(ctx, rule):
     return c02.r1_adoption_kernel(ctx, rule)
 
 
+def _loader_bundle():
+    from . import c07 as _c07
+    return _c07.guesser_loads_faithfully('C03.L')
+
+
+def _segmentation_bundle():
+    from . import c05 as _c05
+    return [('C03.S1', _c05.r1_splice_discipline), ('C03.S2', _c05.r2_slice_tiling), ('C03.S4', _c05.r4_multiword_parts),
+            ('C03.S5', _c05.r5_totality)]
+
+
 def rules(tier):
     return [('C03.R1', r1_tag_chain), ('C03.R2', lambda c, r: r2_mask_producer(c, r, lower_only=False)), ('C03.R3', r3_mask_insertion),
             ('C03.R4', lambda c, r: c04.r3_mask_slices(c, r, strict_char_map=False)), ('C03.R5', c04.r2_structural_recursion), ('C03.R6', c04.r1_dispatch),
             ('C03.R7', c01.r8_uniform_scale), ('C03.R8', _renorm),
-            ('C03.R9', r9_counted_value_is_segment), ('C03.R10', c01.r4_prob_pt_coupling), ('C03.R11', _adoption)]
+            ('C03.R9', r9_counted_value_is_segment), ('C03.R10', c01.r4_prob_pt_coupling), ('C03.R11', _adoption)] + _loader_bundle() + _segmentation_bundle() + []
 
 
 META = {
